@@ -343,17 +343,23 @@ func c04AliasOps() []func() *rt.Node {
 		func() *rt.Node { return rt.Assign("=", rt.Index("c", I(0)), I(5)) },
 		func() *rt.Node { return rt.Assign("=", rt.Index("c", I(0), I(1)), I(4)) },
 		func() *rt.Node { return rt.Call("add_key", Id("snap"), Id("a")) },
-		func() *rt.Node { return rt.Call("p", Id("a"), Id("b"), Id("c")) },
+		func() *rt.Node { return rt.Call("p", Id("a"), Id("b"), Id("c"), Id("d")) },
 		func() *rt.Node {
 			return rt.Call("p", rt.Call("len", Id("a")), rt.In(I(9), Id("a")), rt.Call("len", Id("b")))
 		},
+		// an existing container stored into a slot of another one stays the same object (no copy on store)
+		func() *rt.Node { return rt.Assign("=", rt.Index("a", I(1)), Id("b")) },
+		func() *rt.Node { return rt.Assign("=", rt.Index("a", I(2), S("k")), Id("c")) },
+		func() *rt.Node { return rt.Assign("=", Id("d"), rt.List(I(0), rt.Map())) },
+		func() *rt.Node { return rt.Assign("=", rt.Index("d", I(1), S("in")), Id("a")) },
+		func() *rt.Node { return rt.Assign("=", rt.Index("d", I(0)), I(3)) },
 	}
 }
 
 func c04Alias(w *run.Worker, d dctx) {
 	ops := c04AliasOps()
 	if d.v2 {
-		ops = append(append([]func() *rt.Node{}, ops[:10]...), ops[11]) // no add_key / len in v2
+		ops = append(append(append([]func() *rt.Node{}, ops[:10]...), ops[11]), ops[13:]...) // no add_key / len in v2
 	}
 	maxLen := 4
 	I, S, Id := rt.Int, rt.Str, rt.Id
@@ -369,10 +375,10 @@ func c04Alias(w *run.Worker, d dctx) {
 					stmts = append(stmts, ops[i]())
 				}
 				if d.v2 {
-					stmts = append([]*rt.Node{rt.Assign("=", Id("b"), rt.Nil()), rt.Assign("=", Id("c"), rt.Nil())}, stmts...)
-					stmts = append(stmts, rt.Call("p", Id("a"), Id("b"), Id("c")))
+					stmts = append([]*rt.Node{rt.Assign("=", Id("b"), rt.Nil()), rt.Assign("=", Id("c"), rt.Nil()), rt.Assign("=", Id("d"), rt.Nil())}, stmts...)
+					stmts = append(stmts, rt.Call("p", Id("a"), Id("b"), Id("c"), Id("d")))
 				} else {
-					stmts = append(stmts, rt.Call("p", Id("a"), Id("b"), Id("c"), rt.Call("get_key", Id("snap"))))
+					stmts = append(stmts, rt.Call("p", Id("a"), Id("b"), Id("c"), Id("d"), rt.Call("get_key", Id("snap"))))
 				}
 				p := &Prog{Scripts: map[string][]*rt.Node{"s.p": stmts}, Main: "s.p", Point: PointSpec{Meas: "m"}}
 				w.Eval()
@@ -622,7 +628,7 @@ func init() {
 		Rule: "(A) the complete slice table: every list and ASCII string of length 0..5 (thorough 0..6) x (start,end,step) each omitted or in -8..8 (thorough -10..10) or +-(2^63-1) or -2^63, " +
 			"bounds as literals and as variables, object as identifier and as literal, with and without the second colon; non-ASCII strings with a byte-or-rune disjunctive oracle; " +
 			"(B) every index read / write / compound-write path of depth <=3 over 6 nested shapes x 22 keys (in range, negative, -len, len, 2^32, +-2^63 extremes, strings, missing key, float, nil, bool); " +
-			"(C) every sequence of <=4 operations from 13 aliasing/mutation/snapshot operations; (D) load_json round trips; (F) len() and `in` over 13 value shapes x 12 needles (byte length of non-ASCII strings, nested elements); (E) 6 nested collection literals x 8 deep writes evaluated repeatedly (for-in body, three-clause body inside an if, twice in straight-line code with an alias in between) and the loaded script run twice; all against the reference (Python slice semantics, shared references, add_key snapshots)",
+			"(C) every sequence of <=4 operations from 18 aliasing/mutation/snapshot operations (aliases, slices, element writes through each handle, storing an existing container into a slot of another one, snapshots); (D) load_json round trips; (F) len() and `in` over 13 value shapes x 12 needles (byte length of non-ASCII strings, nested elements); (E) 6 nested collection literals x 8 deep writes evaluated repeatedly (for-in body, three-clause body inside an if, twice in straight-line code with an alias in between) and the loaded script run twice; all against the reference (Python slice semantics, shared references, add_key snapshots)",
 		Assumptions: []string{"encoding/json is the trusted base for the JSON text of snapshots", "unspecified cells: nil-valued slice bounds, indexing through a missing map key"},
 		Run:            c04Run,
 		Replay:         c04Replay,
